@@ -2,7 +2,7 @@
    ending in a node of the fragment, at every level.  Recursive definitions have no finite level and stay outside. *)
 From Coq Require Import List ZArith Bool Lia.
 From Verif Require Import Base.Sx Base.GoVal Schema.Ast Schema.Build Schema.Pipeline Schema.Draft4 Schema.PipelineFacts
-  Schema.PipelineTerm Schema.AgreementData Schema.Agreement.
+  Schema.PipelineTerm Schema.PipelineQuiet Schema.AgreementData Schema.Agreement.
 Import ListNotations.
 Open Scope Z_scope.
 
@@ -69,7 +69,8 @@ Proof.
   assert (Hf2' : exists g2, f2 = (k + S g2)%nat /\ (n * S K <= g2)%nat).
   { exists (f2 - k - 1)%nat. cbn [Nat.mul] in Hf2. split; lia. }
   destruct Hf2' as [g2 [-> Hg2]]. rewrite (d4_chain d k s t Hch (S g2)). cbn [d4]. rewrite (chain_end k s t Hch).
-  apply (body_agree fin allow_null OR N opt Hopt_items Hopt_array Hord Heq_sym (sv_validate OR N opt defs g1) (d4 OR N defs g2) t p q d Hl); [|exact Hd].
+  apply (body_agree fin allow_null OR N opt Hopt_items Hopt_array Hord Heq_sym (sv_validate OR N opt defs g1) (d4 OR N defs g2)
+           (fun c p' q' d' Hd' => no_important_error OR N opt defs g1 c p' q' d' (jd_nohdr fin allow_null d' Hd')) t p q d Hl); [|exact Hd].
   eapply kids_impl; [|exact Kd]. intros c Hcc p' q' d' Hd'. apply IH; [exact Hcc | lia | exact Hg2 | exact Hd'].
 Qed.
 
